@@ -107,57 +107,73 @@ def canMergeFolders (h : Heap) (lcabFiles rcabFiles : List FileId) (lf rf : Fold
     else ls.any fun l => rs.any fun r => same l r
   | _, _ => false
 
-/-- `cabd_merge(lcab, rcab)` — `append(l, r)` and `prepend(r, l)`.  `none` arguments model NULL. -/
-def merge (h : Heap) (l r : Option CabId) : Err × Heap :=
+/-- what `cabd_merge` has established once all its checks have passed -/
+inductive MergePlan
+  | attach (lc rc : CabId) (ln rn : CabNode)
+  | fold (lc rc : CabId) (ln rn : CabNode) (lfid rfid : FolderId) (lf rf : FolderNode)
+
+/-- the checking half of `cabd_merge(lcab, rcab)`: every `return self->error = …` before the first
+    mutation.  `none` arguments model NULL.  (The allocation of the extra `mscabd_folder_data`
+    cannot fail on a fault-free host.) -/
+def mergeCheck (h : Heap) (l r : Option CabId) : Except Err MergePlan :=
   match l, r with
   | some lc, some rc =>
-    if lc = rc then (.args, h) else
+    if lc = rc then .error .args else
     match h.cab? lc, h.cab? rc with
     | some ln, some rn =>
-      if ln.next.isSome ∨ rn.prev.isSome then (.args, h) else
-      if (h.prevChain lc).contains rc ∨ (h.nextChain rc).contains lc then (.args, h) else
+      if ln.next.isSome ∨ rn.prev.isSome then .error .args else
+      if (h.prevChain lc).contains rc ∨ (h.nextChain rc).contains lc then .error .args else
       match ln.folders.getLast?, rn.folders.head? with
       | some lfid, some rfid =>
         match h.folder? lfid, h.folder? rfid with
         | some lf, some rf =>
-          if lf.mergeNext.isNone ∧ rf.mergePrev.isNone then
-            -- plain attach
-            let files := ln.files ++ rn.files
-            let folders := ln.folders ++ rn.folders
-            let h := h.setCab lc { ln with next := some rc, files, folders }
-            let h := h.setCab rc { rn with prev := some lc, files, folders }
-            let h := (h.prevChain lc ++ h.nextChain lc).foldl (fun h c =>
-              match h.cab? c with
-              | some n => h.setCab c { n with files, folders }
-              | none => h) h
-            (.ok, h)
-          else
-            if !canMergeFolders h ln.files rn.files lf rf then (.dataformat, h) else
-            let keepNext : Bool := match rf.mergeNext with
-              | none => true
-              | some mf => (h.file? mf).bind (·.folder) ≠ some rfid
-            let lf' : FolderNode :=
-              { lf with parts := lf.parts ++ rf.parts,
-                        numBlocks := (lf.numBlocks + rf.numBlocks + 2^32 - 1) % 2^32,   -- unsigned `+= n - 1`
-                        mergeNext := if keepNext then rf.mergeNext else lf.mergeNext }
-            let h := h.setFolder lfid lf'
-            let folders := ln.folders ++ rn.folders.drop 1
-            -- files of the disused merge folder are unlinked and freed
-            let files := (ln.files ++ rn.files).filter fun fid =>
-              (h.file? fid).bind (·.folder) ≠ some rfid
-            let h := { h with folders := h.folders.filter (·.1 ≠ rfid),
-                              files := h.files.filter fun (_, fn) => fn.folder ≠ some rfid }
-            let h := h.setCab lc { ln with next := some rc, files, folders }
-            let h := h.setCab rc { rn with prev := some lc, files, folders }
-            let h := (h.prevChain lc ++ h.nextChain lc).foldl (fun h c =>
-              match h.cab? c with
-              | some n => h.setCab c { n with files, folders }
-              | none => h) h
-            (.ok, h)
-        | _, _ => (.args, h)
-      | _, _ => (.args, h)
-    | _, _ => (.args, h)
-  | _, _ => (.args, h)
+          if lf.mergeNext.isNone ∧ rf.mergePrev.isNone then .ok (.attach lc rc ln rn)
+          else if !canMergeFolders h ln.files rn.files lf rf then .error .dataformat
+          else .ok (.fold lc rc ln rn lfid rfid lf rf)
+        | _, _ => .error .args
+      | _, _ => .error .args
+    | _, _ => .error .args
+  | _, _ => .error .args
+
+/-- every cabinet of the (new) chain gets `lcab`'s list heads -/
+def shareLists (h : Heap) (lc : CabId) (files : List FileId) (folders : List FolderId) : Heap :=
+  (h.prevChain lc ++ h.nextChain lc).foldl (fun h c =>
+    match h.cab? c with
+    | some n => h.setCab c { n with files, folders }
+    | none => h) h
+
+/-- the mutating half of `cabd_merge` -/
+def mergeApply (h : Heap) : MergePlan → Heap
+  | .attach lc rc ln rn =>
+    let files := ln.files ++ rn.files
+    let folders := ln.folders ++ rn.folders
+    let h := h.setCab lc { ln with next := some rc, files, folders }
+    let h := h.setCab rc { rn with prev := some lc, files, folders }
+    shareLists h lc files folders
+  | .fold lc rc ln rn lfid rfid lf rf =>
+    let keepNext : Bool := match rf.mergeNext with
+      | none => true
+      | some mf => (h.file? mf).bind (·.folder) ≠ some rfid
+    let lf' : FolderNode :=
+      { lf with parts := lf.parts ++ rf.parts,
+                numBlocks := (lf.numBlocks + rf.numBlocks + 2^32 - 1) % 2^32,   -- unsigned `+= n - 1`
+                mergeNext := if keepNext then rf.mergeNext else lf.mergeNext }
+    let h := h.setFolder lfid lf'
+    let folders := ln.folders ++ rn.folders.drop 1
+    -- files of the disused merge folder are unlinked and freed
+    let files := (ln.files ++ rn.files).filter fun fid =>
+      (h.file? fid).bind (·.folder) ≠ some rfid
+    let h := { h with folders := h.folders.filter (·.1 ≠ rfid),
+                      files := h.files.filter fun (_, fn) => fn.folder ≠ some rfid }
+    let h := h.setCab lc { ln with next := some rc, files, folders }
+    let h := h.setCab rc { rn with prev := some lc, files, folders }
+    shareLists h lc files folders
+
+/-- `cabd_merge(lcab, rcab)` — `append(l, r)` and `prepend(r, l)` -/
+def merge (h : Heap) (l r : Option CabId) : Err × Heap :=
+  match mergeCheck h l r with
+  | .error e => (e, h)
+  | .ok plan => (.ok, mergeApply h plan)
 
 /-- `cabd_close(cab)` for a cabinet that is not part of a `search()` result chain: frees the
     shared lists and every cabinet of the set chain -/
